@@ -38,6 +38,7 @@ pub struct S {
     max_steps: usize,
     abort: Option<Verdict>,
     filter: fn(&str) -> bool,
+    watch: fn(&str) -> bool,
     /// PCT-like mode: per-thread priorities + change points (None = uniform random)
     prio: Option<(Vec<u32>, Vec<usize>)>,
     /// threads that finished (normally, by a panic of the code under test, or unwound by the scheduler)
@@ -72,13 +73,15 @@ pub struct Config {
     pub seed: u64,
     pub replay: Option<Vec<u8>>,
     pub filter: fn(&str) -> bool,
+    /// hook points that are recorded in the trace (`chk <thread> <tag> <value>`) without being scheduling points
+    pub watch: fn(&str) -> bool,
     pub stall_limit: u32,
     pub max_steps: usize,
     pub pct: bool,
 }
 impl Config {
     pub fn new(seed: u64, filter: fn(&str) -> bool) -> Self {
-        Config { seed, replay: None, filter, stall_limit: 3000, max_steps: 200_000, pct: false }
+        Config { seed, replay: None, filter, watch: |_| false, stall_limit: 3000, max_steps: 200_000, pct: false }
     }
 }
 
@@ -162,7 +165,10 @@ impl Sched {
         let me = TID.with(|t| t.get());
         if me == usize::MAX || IN_SCHED.with(|f| f.get()) { return }
         let mut s = self.m.lock().unwrap();
-        if !(s.filter)(tag) { return }
+        if !(s.filter)(tag) {
+            if (s.watch)(tag) { let l = LTID.with(|t| t.get()); s.trace.push(format!("chk {l} {tag} {v}")); }
+            return
+        }
         s.th[me].at = (tag, v);
         s.pick_next();
         let mut s = self.wait_turn(me, s);
@@ -251,7 +257,7 @@ pub fn run(cfg: Config, bodies: Vec<Body>) -> Outcome {
             current: usize::MAX,
             th: (0..n).map(|_| Th { status: Status::Runnable, at: ("start", 0), opidx: 0 }).collect(),
             rng, trace: vec![], choices: vec![], replay: cfg.replay, seen: HashSet::new(), stale: 0,
-            stall_limit: cfg.stall_limit, steps: 0, max_steps: cfg.max_steps, abort: None, filter: cfg.filter, prio,
+            stall_limit: cfg.stall_limit, steps: 0, max_steps: cfg.max_steps, abort: None, filter: cfg.filter, watch: cfg.watch, prio,
             finished: 0, zombies: 0, panics: vec![None; n],
         }),
         cv: Condvar::new(),
